@@ -89,18 +89,26 @@ _WORK = {}
 
 
 def _work(job):
-    """one workbook in a worker process (forked after the mutant, if any, was installed)"""
+    """one workbook in a worker process (forked after the mutant, if any, was installed).
+
+    A worker keeps ONE file name for all its workbooks and rewrites the file, as a user editing and re-converting a
+    workbook does; every second workbook is first converted with a region filter (result not judged).  The judged
+    conversion must depend on the file's content only, not on what was converted before under that name."""
     n, wb, as_int, bidir, wd = job
     if 'eq' not in _WORK:
         _WORK['eq'] = equipment('eqpt_config.json')
-    name = f'wb-{n}'
-    path = Path(wd) / f'{name}.xlsx'
+    path = Path(wd) / f'worker-{os.getpid()}.xlsx'
     wu.write_xlsx(wb, path, as_int=as_int)
+    if n % 2 and wb['nodes']:
+        from gnpy.tools.convert import xls_to_json_data
+        try:
+            xls_to_json_data(path, ['west'])
+        except Exception:                        # noqa  the filtered sub-network may well be invalid: not judged
+            pass
     try:
         return n, run_real(path, _WORK['eq'], bool(wb['services']), bidir)
     finally:
-        path.unlink(missing_ok=True)
-        for f in Path(wd).glob(f'{name}_services.json'):
+        for f in Path(wd).glob(f'worker-{os.getpid()}_services.json'):
             f.unlink()
 
 
